@@ -255,7 +255,7 @@ def check_script(case):
     wd = gen.mkdtemp('c16s')
     viol = []
     opt = case
-    label = 'top%d|ignore-%s|%s|%s' % (len(opt['top']), opt['ignk'], 'submodule' if opt['sub'] else 'main', 'ser' if opt['ser'] else 'noser')
+    label = 'top%d%s|ignore-%s|%s|%s' % (len(opt['top']), '-leading-colons' if opt.get('leading_colons') else '', opt['ignk'], 'submodule' if opt['sub'] else 'main', 'ser' if opt['ser'] else 'noser')
 
     def add(sig, msg):
         viol.append({'sig': sig, 'msg': '%s\noptions: %s' % (msg, {k: opt[k] for k in ('script', 'top', 'ignore', 'sub', 'ser')})})
@@ -287,7 +287,7 @@ def check_script(case):
         else:
             cmd = [sys.executable, os.path.join(core.REPO, 'scripts', 'matlab_wrap.py'), '--src', src, '--module_name', 'mod', '--out', out_s]
         if opt['top']:
-            cmd += ['--top_module_namespaces', '::'.join(opt['top'])]
+            cmd += ['--top_module_namespaces', ('::' if opt.get('leading_colons') else '') + '::'.join(opt['top'])]
         if opt['ignore'] is not None:
             cmd += ['--ignore'] + opt['ignore']
         if opt['ser']:
@@ -380,6 +380,10 @@ def run(ctx):
                 for sub in ((False, True) if script == 'pybind' else (False,)):
                     for ser in (False, True):
                         scases.append({'mode': 'script', 'script': script, 'top': top, 'ignk': ignk, 'ignore': ign, 'sub': sub, 'ser': ser})
+    # the fully qualified spelling ::gt::inner of the top namespace
+    for top in (['gt'], ['gt', 'inner']):
+        for sub in (False, True):
+            scases.append({'mode': 'script', 'script': 'pybind', 'top': top, 'ignk': 'absent', 'ignore': None, 'sub': sub, 'ser': False, 'leading_colons': True})
     res2 = ctx.map(check_script, scases, chunksize=1)
     # compiled composition
     d = gen.mkdtemp('c16')
